@@ -2100,3 +2100,146 @@ SPECS["C11"].append(spec_bin_name_twins)
 # cross-registration: kernels that serve more than one property
 SPECS["C02"].append(spec_positional_counter)      # which positional a token is attributed to
 SPECS["C07"].append(spec_react_index)             # every occurrence is opened through Parser::start_custom_arg (override removal)
+
+
+# ------------------------------------------------------------------ C08/C09/C10: what counts as a candidate for subcommand inference
+
+def spec_inference_candidates(fns, consts):
+    """The candidate closures of prefix inference (executed from their own MIR): for possible_subcommand a
+    subcommand is a candidate if its NAME starts with the token (offered under its name) and otherwise
+    through the first of ALL its aliases - visible and hidden (`get_all_aliases`) - that starts with the
+    token; for possible_long_flag_subcommand likewise through the long flag and ALL long-flag aliases."""
+    con = contracts.Contracts(fns, default_pure=True)
+    ctx = symex.Ctx(consts, con)
+    obs, enc = [], []
+
+    def add(fn, msg, pc, neg):
+        obs.append({"fn": fn.name, "block": "ret", "kind": "spec", "target": "inference_candidates", "msg": msg, "pc": list(pc), "neg": neg})
+
+    cand = [f.get() for n, f in fns.items() if re.search(r"parser/parser\.rs.*::possible_subcommand::\{closure#0\}$", n)]
+    if len(cand) != 1:
+        raise Unsupported("possible_subcommand: candidate closure not found")
+    fn = cand[0]
+    ex = symex.Exec(ctx, fn, [("opq", "env"), ("opq", "sc")]).run()
+    sw = [ctx.keys[k] for k in ctx.keys if re.match(r"^core::str::<impl str>::starts_with::<&str>\(command::Command::get_name\(sc\),", k)]
+    n_alias = 0
+    for (pc, val), ca in zip(ex.returns, ex.return_callargs):
+        if len(sw) != 1:
+            add(fn, "the name test has an unexpected shape", pc, "true")
+            continue
+        if sw[0] in pc:
+            ok = val[0] == "enum" and val[1] == "Some" and ex.key(val[2]) == "command::Command::get_name(sc)"
+            add(fn, "a subcommand whose name starts with the token is a candidate under its name", pc, "false" if ok else "true")
+        else:
+            n_alias += 1
+            finds = [c for c in ca if re.search(r" as Iterator>::find::<\{closure@", c[0])]
+            ok = len(finds) == 1 and finds[0][1][0] == "command::Command::get_all_aliases(sc)" and val[0] == "opq" and val[1] == finds[0][2] \
+                and not any(c[0].endswith(("::get_aliases", "::get_visible_aliases")) for c in ca)
+            add(fn, "otherwise it is a candidate through the first of ALL its aliases (visible and hidden) that starts with the token", pc, "false" if ok else "true")
+    # the alias predicate: alias.starts_with(token)
+    pred = [f.get() for n, f in fns.items() if re.search(r"parser/parser\.rs.*::possible_subcommand::\{closure#0\}::\{closure#0\}$", n)]
+    if len(pred) == 1:
+        pex = symex.Exec(ctx, pred[0], [("opq", "penv"), ("opq", "alias")]).run()
+        for pc, val in pex.returns:
+            ks = [ctx.keys[k] for k in ctx.keys if re.match(r"^core::str::<impl str>::starts_with::<&str>\(alias,", k)]
+            add(pred[0], "an alias matches iff it starts with the token", pc, f"(not (= {val[1]} {ks[0]}))" if (len(ks) == 1 and val[0] == "bool") else "true")
+        enc.append(_enc(pred[0], pex, len(pex.returns)))
+    else:
+        add(fn, "alias predicate closure not found", [], "true")
+    if n_alias == 0:
+        add(fn, "no alias path in the candidate closure", [], "true")
+    enc.append(_enc(fn, ex, len(ex.returns)))
+    # long flag subcommands: all long-flag aliases
+    lf = [f.get() for n, f in fns.items() if re.search(r"parser/parser\.rs.*::possible_long_flag_subcommand::\{closure#0\}::\{closure#0\}$", n)]
+    if len(lf) == 1:
+        lex = symex.Exec(ctx, lf[0], [("opq", "lenv"), ("opq", "long")]).run()
+        lsw = [ctx.keys[k] for k in ctx.keys if re.match(r"^core::str::<impl str>::starts_with::<&str>\(long,", k)]
+        for (pc, val), ca in zip(lex.returns, lex.return_callargs):
+            if len(lsw) == 1 and lsw[0] in pc:
+                ok = val[0] == "enum" and val[1] == "Some" and "Command::get_name(" in ex.key(val[2])
+                add(lf[0], "a long flag that starts with the token makes its subcommand a candidate", pc, "false" if ok else "true")
+            else:
+                fm = [c for c in ca if re.search(r" as Iterator>::find_map::<", c[0])]
+                ok = len(fm) == 1 and re.match(r"^command::Command::get_all_long_flag_aliases\(", fm[0][1][0]) is not None and val[0] == "opq" and val[1] == fm[0][2]
+                add(lf[0], "otherwise the subcommand is a candidate through ALL its long-flag aliases", pc, "false" if ok else "true")
+        enc.append(_enc(lf[0], lex, len(lex.returns)))
+    else:
+        add(fn, "long-flag candidate closure not found", [], "true")
+    return ctx, obs, enc, con
+
+
+for _p in ("C08", "C09", "C10"):
+    SPECS[_p].append(spec_inference_candidates)
+
+
+# ------------------------------------------------------------------ C09: global arguments reach every subcommand
+
+def spec_propagate_globals(fns, consts):
+    """Command::_propagate_global_args, one pass of each loop from an arbitrary state: a subcommand is
+    skipped exactly when it is named "help" AND the help subcommand is autogenerated (not disabled) -
+    a user-defined `help` subcommand receives globals like any other; the arguments iterated are the
+    parent's arguments filtered by `is_global_set()`; a global is pushed (as a clone) into the
+    subcommand exactly when the subcommand does not already define that id."""
+    con = contracts.Contracts(fns, default_pure=True)
+    ctx = symex.Ctx(consts, con)
+    fn = _find(fns, "builder/command.rs", "_propagate_global_args")
+    ex = symex.Exec(ctx, fn, [("opq", "self")])
+    ex.run(havoc_unassigned=True, cut_loops=True)
+    obs = []
+
+    def add(msg, pc, neg, block="loop"):
+        obs.append({"fn": fn.name, "block": block, "kind": "spec", "target": "propagate_globals", "msg": msg, "pc": list(pc), "neg": neg})
+
+    dis = ex.typed_fresh("command::Command::is_disable_help_subcommand_set(self)", "bool")[1]
+    n_skip = n_push = 0
+
+    def is_help_const(key):
+        m = re.match(r"^const:(.*::promoted\[\d+\])$", key)
+        if not m:
+            return key == 'str:"help"'
+        tail = "::".join(m.group(1).split("::")[-2:])
+        cands = [v for k, v in consts.items() if k.startswith("promoted:") and k.endswith(tail) and "builder/command.rs" in k]
+        return len(cands) == 1 and any(re.search(r'= const "help";', l) for l in cands[0][2])
+
+    filter_ok = None
+    for pc, env in ex.cuts:
+        ca = env.get("#callargs", ())
+        cn = [c[0] for c in ca]
+        namecmp = [c for c in ca if re.search(r"^<&?str as PartialEq(<&?str>)?>::eq$", c[0]) and "Command::get_name(" in c[1][0] and is_help_const(c[1][1])]
+        eq = ctx.keys.get(namecmp[-1][2]) if namecmp else None
+        entered = any(re.search(r"MKeyMap::args$", x) for x in cn)
+        finds = [c for c in ca if c[0].endswith("Command::find")]
+        if not eq:
+            add("every pass over a subcommand tests its name against `help`", pc, "true")
+            continue
+        if not entered:
+            n_skip += 1
+            add("a subcommand is skipped only when it is named `help` and the help subcommand is autogenerated", pc, f"(not (and {eq} (not {dis})))")
+            continue
+        add("globals are propagated into every subcommand that is not the autogenerated `help`", pc, f"(and {eq} (not {dis}))")
+        if filter_ok is None:
+            filt = [c for c in ca if re.search(r" as Iterator>::filter::<\{closure@", c[0])]
+            filter_ok = False
+            if filt:
+                try:
+                    cf = _closure_fn(fns, re.search(r"\{closure@[^}]*\}", filt[-1][0]).group(0))
+                    cex = symex.Exec(ctx, cf, [("opq", "fenv"), ("opq", "garg")]).run()
+                    gk = [ctx.keys[k] for k in ctx.keys if re.search(r"Arg::is_global_set\(garg\)$", k)]
+                    filter_ok = len(cex.returns) == 1 and len(gk) == 1 and cex.returns[0][1][1] == gk[0] and "MKeyMap::args(self." in filt[-1][1][0]
+                except Unsupported:
+                    filter_ok = False
+            add("the arguments propagated are the parent's arguments filtered by is_global_set()", pc, "false" if filter_ok else "true")
+        if finds:
+            pushed = any(re.search(r"MKeyMap::push$", x) for x in cn)
+            iss = [c for c in ca if c[0] == "Option::<&Arg>::is_some" and finds[-1][2] in c[1][0]]
+            some = ctx.keys.get(iss[-1][2]) if iss else None
+            n_push += pushed
+            clone_ok = (not pushed) or any(c[0] == "<Arg as Clone>::clone" for c in ca)
+            add("a global argument is cloned into the subcommand exactly when the subcommand does not define that id yet", pc,
+                "true" if (not clone_ok or not some) else (some if pushed else f"(not {some})"))
+    if n_skip == 0 or n_push == 0:
+        add("_propagate_global_args no longer has the reference shape (skip / push paths not found)", [], "true", block="shape")
+    return ctx, obs, [_enc(fn, ex, len(ex.cuts))], con
+
+
+SPECS["C09"].append(spec_propagate_globals)
